@@ -203,3 +203,253 @@ def clone_prec_concrete(p, m):
         return ok, 'mp.prec = %d; c = mp.clone(): clone shows (prec, dps, operator precision) = %r, expected %r' % (P, got, want)
     finally:
         mp.prec = old
+
+
+# ------------------------------------------------------------------------------ coupling through results: shared stores
+_MUT = (dict, list, set)
+_STORE_METHODS = ('append', 'extend', 'update', 'setdefault', 'add', 'insert', 'pop', 'clear', 'remove')
+
+
+def shared_roots():
+    """id -> description of every mutable container that all contexts can reach without going through a context object:
+    module globals, default arguments of functions, class attributes (one level of nesting)."""
+    import sys
+    import types
+    roots = {}
+
+    def add(v, what, depth=0):
+        if isinstance(v, _MUT) and id(v) not in roots:
+            roots[id(v)] = what
+            if depth < 1:
+                for w in (v.values() if isinstance(v, dict) else v):
+                    add(w, what + ' (nested)', depth + 1)
+
+    def add_fn(f, qn):
+        for i, d in enumerate(f.__defaults__ or ()):
+            names = f.__code__.co_varnames[:f.__code__.co_argcount]
+            add(d, 'default argument %s of %s' % (names[len(names) - len(f.__defaults__) + i], qn))
+        for k, d in (f.__kwdefaults__ or {}).items():
+            add(d, 'default argument %s of %s' % (k, qn))
+    for mn, mod in sorted(sys.modules.items()):
+        if not mn.startswith('mpmath') or mod is None or '.tests' in mn:
+            continue
+        for name, obj in list(vars(mod).items()):
+            if name.startswith('__'):
+                continue
+            if isinstance(obj, types.FunctionType):
+                add_fn(obj, '%s.%s' % (mn, name))
+            elif isinstance(obj, type) and (obj.__module__ or '').startswith('mpmath'):
+                for k, v in list(vars(obj).items()):
+                    if isinstance(v, types.FunctionType):
+                        add_fn(v, '%s.%s.%s' % (mn, obj.__name__, k))
+                    elif not k.startswith('__'):
+                        add(v, 'class attribute %s.%s' % (obj.__name__, k))
+            else:
+                add(obj, 'module global %s.%s' % (mn, name))
+    return roots
+
+
+def _may_store(fn):
+    """cheap syntactic pre-filter: the function's own source (nested defs included) contains a subscript store or a call of a
+    mutating container method"""
+    import ast
+    from pysym import srcmap
+    try:
+        node, info = srcmap.lookup(fn)
+    except Exception:
+        return False
+    for n in ast.walk(node):
+        if isinstance(n, ast.Subscript) and isinstance(n.ctx, (ast.Store, ast.Del)):
+            return True
+        if isinstance(n, ast.Call) and isinstance(n.func, ast.Attribute) and n.func.attr in _STORE_METHODS:
+            return True
+    return False
+
+
+def store_candidates():
+    """(module, qualname) of every function of the loaded mpmath modules that takes the context as first parameter `ctx` and may
+    store into a container"""
+    import sys
+    import types
+    import mpmath       # noqa
+    out, seen = [], set()
+    for mn, mod in sorted(sys.modules.items()):
+        if not mn.startswith('mpmath') or mod is None or '.tests' in mn or mn.startswith('mpmath.libmp'):
+            continue
+        for name, obj in list(vars(mod).items()):
+            cands = []
+            if isinstance(obj, types.FunctionType):
+                cands.append((name, obj))
+            elif isinstance(obj, type) and (obj.__module__ or '').startswith('mpmath'):
+                for k, v in vars(obj).items():
+                    if isinstance(v, types.FunctionType):
+                        cands.append((obj.__name__ + '.' + k, v))
+            for qn, f in cands:
+                if f.__code__ in seen or f.__module__ != mn or qn.split('.')[-1] in ('__init__', 'init_builtins', '_init_aliases'):
+                    continue
+                seen.add(f.__code__)
+                an = f.__code__.co_varnames[:f.__code__.co_argcount]
+                if not an or an[0] != 'ctx' or not _may_store(f):
+                    continue
+                out.append((mn, qn))
+    return out
+
+
+def _resolve_fn(modname, qn):
+    import importlib
+    obj = importlib.import_module(modname)
+    for part in qn.split('.'):
+        obj = getattr(obj, part)
+    return obj
+
+
+def _symbolicish(v, depth=0):
+    if isinstance(v, (Unknown, SInt, SBool)) or type(v).__module__.startswith('pysym'):
+        return True
+    if isinstance(v, (tuple, list)) and depth < 3:
+        return any(_symbolicish(w, depth + 1) for w in v)
+    return False
+
+
+def shared_store(p):
+    """One function taking the context as first parameter, entered with arbitrary arguments (its defaulted parameters keep their
+    defaults, as for a user), its callees replaced by arbitrary results: on no path may it store a value that depends on the
+    call into a container that every context shares (module global, default argument, class attribute).  Such a store is how a
+    result computed by one context (its number type, its precision) reaches the callers of another."""
+    import types
+    import mpmath
+    fn = _resolve_fn(p['mod'], p['fn'])
+    roots = shared_roots()
+    ctx = mpmath.fp if p['mod'].endswith('ctx_fp') else mpmath.iv if p['mod'].endswith('ctx_iv') else mpmath.mp.clone()
+    PD, DP = ufs()
+    ob = Ob(W, abstract=True, models=make_models(PD, DP), max_unroll=2, timeout_s=p.get('_t', 30))
+    ob.eng.inline_policy = lambda f, depth: depth <= 0 or ('<locals>' in getattr(f, '__qualname__', '') and depth < 3 and
+                                                           getattr(f, '__module__', '') == p['mod'])
+    code = fn.__code__
+    nreq = code.co_argcount - len(fn.__defaults__ or ()) - 1
+    args = [Unknown('arg%d' % i) for i in range(max(nreq, 0))]
+    try:
+        outs = ob.run(types.MethodType(fn, ctx), args, {}, heap={})
+    except (TypeError, ValueError, AttributeError, IndexError, KeyError) as e:
+        # the abstract interpreter met an operation it has no rule for on an arbitrary value: nothing is claimed for this function
+        raise Unsupported('abstract scan stopped: %s: %s' % (type(e).__name__, str(e)[:120]))
+    hits = {}
+    for st, kind, val in outs:
+        for key, (obj, v) in st.heap.items():
+            if id(obj) in roots and _symbolicish(v):
+                hits[roots[id(obj)]] = hits.get(roots[id(obj)], 0) + 1
+    res = dict(status='proved' if not hits else 'violated', model={'stores': sorted(hits)},
+               detail='' if not hits else 'stores a call-dependent value into %s' % '; '.join(sorted(hits)))
+    res = finish(ob, res)
+    res['stats']['extra'].update(exits=len(outs), shared_containers=len(roots), stubbed=len(ob.eng.stubbed))
+    return res
+
+
+def _examples_for(modname, qn):
+    """doctest expressions that exercise the function: its own examples if it is public, otherwise those of the public functions
+    of the same module whose source mentions it"""
+    import doctest
+    import importlib
+    import inspect
+    import types
+    import mpmath
+    name = qn.split('.')[-1]
+    mod = importlib.import_module(modname)
+    owners = []
+    if not name.startswith('_') and hasattr(mpmath.mp, name):
+        owners.append(name)
+    for n, f in vars(mod).items():
+        if isinstance(f, types.FunctionType) and n != name and hasattr(mpmath.mp, n) and not n.startswith('_'):
+            try:
+                src = inspect.getsource(f)
+            except Exception:
+                continue
+            if name + '(' in src:
+                owners.append(n)
+    exprs = []
+    for n in owners:
+        doc = getattr(getattr(mpmath.mp, n), '__doc__', None) or ''
+        try:
+            exs = doctest.DocTestParser().get_examples(doc)
+        except Exception:
+            continue
+        for e in exs:
+            s = e.source.strip()
+            if n + '(' not in s or '\n' in s:
+                continue
+            try:
+                compile(s, '<doc>', 'eval')
+            except SyntaxError:
+                continue
+            exprs.append(s)
+    return exprs
+
+
+def shared_store_concrete(p, m):
+    """dynamic confirmation with two real contexts: the documented example calls of the function are evaluated by context Y alone
+    (fresh process) and by Y after context X evaluated the same calls; the results of Y (number type and exact value) must agree"""
+    import os
+    import pickle
+    import signal
+    exprs = _examples_for(p['mod'], p['fn'])[:8]
+    if not exprs:
+        return None, 'UNCONFIRMED: %s; no documented example call to confirm it with' % m.get('stores')
+
+    def make(kind):
+        import mpmath
+        if kind == 'fp':
+            return mpmath.fp
+        c = mpmath.mp.clone()
+        c.prec = int(kind[2:])
+        return c
+
+    def describe(ctx, r):
+        own = [getattr(ctx, 'mpf', None), getattr(ctx, 'mpc', None)] if ctx is not __import__('mpmath').fp else [float, complex, int]
+        def one(x):
+            if isinstance(x, (tuple, list)):
+                return [one(y) for y in x]
+            t = type(x)
+            return (t.__name__, 'own' if t in own else 'other', repr(getattr(x, '_mpf_', getattr(x, '_mpc_', x))))
+        return one(r)
+
+    def evaluate(kinds):
+        """child process: evaluate all examples under each context of `kinds` in turn; return the descriptions for the last"""
+        rd, wr = os.pipe()
+        pid = os.fork()
+        if pid == 0:
+            out = []
+            try:
+                os.close(rd)
+                signal.alarm(25)
+                for kind in kinds:
+                    ctx = make(kind)
+                    ns = {n: getattr(ctx, n) for n in dir(ctx) if not n.startswith('_')}
+                    out = []
+                    for s in exprs:
+                        try:
+                            out.append(describe(ctx, eval(s, dict(ns))))
+                        except Exception as e:
+                            out.append(('raised', type(e).__name__))
+                os.write(wr, pickle.dumps(out))
+            finally:
+                os._exit(0)
+        os.close(wr)
+        data = b''
+        while True:
+            chunk = os.read(rd, 65536)
+            if not chunk:
+                break
+            data += chunk
+        os.close(rd)
+        os.waitpid(pid, 0)
+        return pickle.loads(data) if data else None
+    for x, y in (('mp200', 'mp30'), ('fp', 'mp40'), ('mp200', 'fp'), ('mp30', 'mp200')):
+        alone = evaluate([y])
+        after = evaluate([x, y])
+        if alone is None or after is None:
+            continue
+        for s, u, v in zip(exprs, alone, after):
+            if u != v:
+                return False, ('%s evaluated by context %s gives %r on its own but %r after context %s evaluated the same call (%s)'
+                               % (s, y, u, v, x, '; '.join(m.get('stores', []))))[:600]
+    return None, 'UNCONFIRMED: %s, but the documented example calls give identical results with and without an earlier evaluation by another context' % m.get('stores')
